@@ -786,6 +786,14 @@ mod variant;
 
 pub mod mem;
 
+/// Verification hook, present only with the `hsivonen_encoding_rs_verif`
+/// feature: `true` makes UTF-8 validation always take the built-in scalar
+/// path (process-global switch, `false` by default).
+#[cfg(feature = "hsivonen_encoding_rs_verif")]
+pub fn verif_skip_fast_utf8(skip: bool) {
+    crate::utf_8::VERIF_SKIP_FAST_UTF8.store(skip, core::sync::atomic::Ordering::Relaxed);
+}
+
 use crate::ascii::ascii_valid_up_to;
 use crate::ascii::iso_2022_jp_ascii_valid_up_to;
 use crate::utf_8::utf8_valid_up_to;
